@@ -288,3 +288,56 @@ LEVEL = "other"
 EXPLANATION = __doc__
 TRUSTED = ["trace keys are -1 (initial state) and non-negative event times; start >= 0; end is None or >= start "
            "(established by _validate, which builds the trace)"]
+
+
+# ------------------------------------------------------------------------------- bounded layer
+def bounded(tier, seed):
+    import warnings
+    from rtc.tgen import TGen
+    from spec import tempsem
+    from unified_planning.engines.plan_validator import TimeTriggeredPlanValidator
+    from unified_planning.plans import TimeTriggeredPlan, ActionInstance
+    from unified_planning.engines.results import ValidationResultStatus
+    nprob, nplans = (150, 6) if tier == "quick" else (2500, 10)
+    failures, evals, nontrivial, samples, amb = [], 0, set(), [], 0
+    with warnings.catch_warnings():
+        warnings.simplefilter("ignore")
+        tv = TimeTriggeredPlanValidator()
+        for i in range(nprob):
+            s = seed * 100003 + i
+            g = TGen(s)
+            try:
+                pr = g.problem(f"t{s}")
+            except Exception:  # noqa
+                continue
+            if not tv.supports(pr.kind):
+                continue
+            for k in range(nplans):
+                plan = g.plan(pr)
+                try:
+                    want, why = tempsem.valid(pr, plan)
+                except tempsem.Ambiguous:
+                    amb += 1
+                    continue
+                evals += 1
+                desc = {"problem": str(pr), "plan": [f"{st}: {a.name}({','.join(o.name for o in ps)}) [{d}]" for st, a, ps, d in plan]}
+                try:
+                    res = tv.validate(pr, TimeTriggeredPlan([(st, ActionInstance(a, ps), d) for st, a, ps, d in plan]))
+                    got = res.status == ValidationResultStatus.VALID
+                except Exception as e:  # noqa
+                    failures.append({"what": f"seed {s}: validator raised {type(e).__name__}: {e}", "concrete": desc, "observed": repr(e)})
+                    continue
+                if want:
+                    nontrivial.add((s, tuple(desc["plan"])))
+                if got != want:
+                    failures.append({"what": f"seed {s}: validator says {'VALID' if got else 'INVALID'}, reference semantics says "
+                                             f"{'VALID' if want else 'INVALID (' + why + ')'}", "concrete": desc, "observed": str(res.status)})
+                if len(samples) < 3 and want and len(plan) >= 2:
+                    samples.append({"problem": pr.name, "plan": desc["plan"], "verdict": "VALID"})
+            if len(failures) >= 5:
+                break
+    return {"evaluations": evals, "distinct_nontrivial": len(nontrivial), "failures": failures[:5],
+            "rule": f"{nprob} generated temporal problems (durative actions with fixed/closed/open duration intervals, at-start/at-end/"
+                    f"over-all conditions with open and closed ends, start/end/intermediate effects, timed effects and goals) x {nplans} "
+                    f"time-triggered plans of <= 3 instances on a half-unit grid (coinciding happenings are frequent); non-trivial = distinct VALID plan",
+            "samples": samples, "ambiguous_skipped": amb, "bound": f"{nprob} problems x {nplans} plans, <= 3 instances"}
